@@ -14,17 +14,17 @@ Import ListNotations.
    KScan), in any order, cold then warm: each returns the declared instance or none, within the model's fuel, and
    the record stays in a state from which this remains true *)
 Theorem C08_every_history_returns_declared :
-  forall (cn : cls -> string) (wiring : list (nat * cls)) (ncache : nat),
+  forall (cn : cls -> string) (wiring : list (nat * cls)) (skipnull reread : bool) (ncache : nat),
     NoDup (map fst wiring) -> (forall i c, In (i, c) wiring -> i < ncache) ->
   forall (D : list (string * inst)) (h : list (kind * cls)),
-  exists T', run_history cn wiring (cold_type ncache D) h = Some (T', map (fun kc => dspec cn D (snd kc)) h)
+  exists T', run_history cn wiring skipnull reread (cold_type ncache D) h = Some (T', map (fun kc => dspec cn D (snd kc)) h)
              /\ inv cn wiring ncache D T'.
 Proof. exact every_history_from_cold. Qed.
 Print Assumptions C08_every_history_returns_declared.
 
 Example C08_every_history_nonvacuous :
   NoDup (map fst [(0, 5); (1, 7)]) /\ (forall i c, In (i, c) [(0, 5); (1, 7)] -> i < 2) /\
-  run_history (fun c => if Nat.eqb c 5 then "A" else if Nat.eqb c 6 then "A" else "B")%string [(0, 5); (1, 7)]
+  run_history (fun c => if Nat.eqb c 5 then "A" else if Nat.eqb c 6 then "A" else "B")%string [(0, 5); (1, 7)] false false
     (cold_type 2 [("B", 10); ("A", 11); ("A", 12)]%string) [(KScan, 6); (KInstance, 5); (KInstance, 5); (KInstance, 9)]
   = Some (mkTrec [Some 11; None] [mkTriple (Some 9) "B" 10; mkTriple (Some 5) "A" 11; mkTriple None "A" 12]%string,
           [Some 11; Some 11; Some 11; Some 10]).
@@ -37,24 +37,24 @@ Qed.
    ids, each step contains at most one access to a mutable shared word): no word outside the cache area is touched,
    and every result any thread has obtained is the declared instance *)
 Theorem C08_every_schedule_returns_declared :
-  forall (cn : cls -> string) (wiring : list (nat * cls)) (ncache : nat),
+  forall (cn : cls -> string) (wiring : list (nat * cls)) (skipnull reread : bool) (ncache : nat),
     NoDup (map fst wiring) -> (forall i c, In (i, c) wiring -> i < ncache) ->
   forall (D : list (string * inst)) (scripts : list (list (kind * cls))) (sched : list nat),
-  exists s', run_sched cn wiring sched (cold_type ncache D, map idle_thread scripts) = Some s' /\
+  exists s', run_sched cn wiring skipnull reread sched (cold_type ncache D, map idle_thread scripts) = Some s' /\
              inv cn wiring ncache D (fst s') /\
              forall th, In th (snd s') -> Forall (fun e => snd e = dspec cn D (fst e)) (th_log th).
 Proof. exact every_schedule_from_cold. Qed.
 Print Assumptions C08_every_schedule_returns_declared.
 
-(* (2b) lookups are wait-free: a thread that gets (#lookups) * (2 * #instances + 7) turns completes its whole
+(* (2b) lookups are wait-free: a thread that gets (#lookups) * (2 * #instances + 8) turns completes its whole
    script, with exactly the declared answers in script order, whatever the other threads do in between *)
 Theorem C08_lookups_complete_under_any_interleaving :
-  forall (cn : cls -> string) (wiring : list (nat * cls)) (ncache : nat),
+  forall (cn : cls -> string) (wiring : list (nat * cls)) (skipnull reread : bool) (ncache : nat),
     NoDup (map fst wiring) -> (forall i c, In (i, c) wiring -> i < ncache) ->
   forall (D : list (string * inst)) (scripts : list (list (kind * cls))) (sched : list nat),
     (forall tid scr, nth_error scripts tid = Some scr ->
-       List.length scr * (2 * List.length D + 7) <= count_occ Nat.eq_dec sched tid) ->
-  exists s', run_sched cn wiring sched (cold_type ncache D, map idle_thread scripts) = Some s' /\
+       List.length scr * (2 * List.length D + 8) <= count_occ Nat.eq_dec sched tid) ->
+  exists s', run_sched cn wiring skipnull reread sched (cold_type ncache D, map idle_thread scripts) = Some s' /\
              List.length (snd s') = List.length scripts /\
              forall tid scr th', nth_error scripts tid = Some scr -> nth_error (snd s') tid = Some th' ->
                th_todo th' = [] /\ th_cur th' = None /\
@@ -64,7 +64,7 @@ Print Assumptions C08_lookups_complete_under_any_interleaving.
 
 Example C08_schedule_nonvacuous :
   let cn := (fun c => if Nat.eqb c 5 then "A" else "B")%string in
-  exists s', run_sched cn [(0, 5)] (flat_map (fun _ => [0; 1; 1; 0]) (seq 0 14))
+  exists s', run_sched cn [(0, 5)] true true (flat_map (fun _ => [0; 1; 1; 0]) (seq 0 14))
                (cold_type 1 [("B", 10); ("A", 11)]%string, map idle_thread [[(KInstance, 5); (KScan, 7)]; [(KInstance, 5)]]) = Some s' /\
              map (@th_log) (snd s') = [[(5, Some 11); (7, Some 10)]; [(5, Some 11)]].
 Proof. eexists. split; vm_compute; reflexivity. Qed.
@@ -73,11 +73,11 @@ Proof. eexists. split; vm_compute; reflexivity. Qed.
    type does not implement, or a member it leaves empty, gives ClassError (and therefore no invocation: the outcome
    is MRaise, not MInvoke) *)
 Theorem C08_method_call_invokes_declared_or_raises_ClassError :
-  forall (cn : cls -> string) (wiring : list (nat * cls)) (ncache : nat),
+  forall (cn : cls -> string) (wiring : list (nat * cls)) (skipnull reread : bool) (ncache : nat),
     NoDup (map fst wiring) -> (forall i c, In (i, c) wiring -> i < ncache) ->
   forall (D : list (string * inst)) (imem : inst -> nat -> bool) (T : trec) (c : cls) (m : nat),
     inv cn wiring ncache D T ->
-  exists T' v, lookup cn wiring KInstance c T = ROk T' v /\ inv cn wiring ncache D T' /\
+  exists T' v, lookup cn wiring skipnull reread KInstance c T = ROk T' v /\ inv cn wiring ncache D T' /\
     method_result imem true v m =
       match dspec cn D c with
       | None => MRaise ClassError
@@ -94,11 +94,11 @@ Example C08_method_call_nonvacuous :
 Proof. split; [apply inv_cold_type | repeat split]. Qed.
 
 Theorem C08_implements_method_reports_declared_member :
-  forall (cn : cls -> string) (wiring : list (nat * cls)) (ncache : nat),
+  forall (cn : cls -> string) (wiring : list (nat * cls)) (skipnull reread : bool) (ncache : nat),
     NoDup (map fst wiring) -> (forall i c, In (i, c) wiring -> i < ncache) ->
   forall (D : list (string * inst)) (imem : inst -> nat -> bool) (T : trec) (c : cls) (m : nat),
     inv cn wiring ncache D T ->
-  exists T' v, lookup cn wiring KScan c T = ROk T' v /\ inv cn wiring ncache D T' /\
+  exists T' v, lookup cn wiring skipnull reread KScan c T = ROk T' v /\ inv cn wiring ncache D T' /\
     implements_method_result imem v m = match dspec cn D c with None => false | Some i => imem i m end.
 Proof. exact implements_method_from_reachable. Qed.
 Print Assumptions C08_implements_method_reports_declared_member.
@@ -106,11 +106,11 @@ Print Assumptions C08_implements_method_reports_declared_member.
 (* (3b) cast: unless the type declares its own Cast member, cast to another type raises ValueError, to its own type
    returns the object *)
 Theorem C08_cast_checks_the_type :
-  forall (cn : cls -> string) (wiring : list (nat * cls)) (ncache : nat),
+  forall (cn : cls -> string) (wiring : list (nat * cls)) (skipnull reread : bool) (ncache : nat),
     NoDup (map fst wiring) -> (forall i c, In (i, c) wiring -> i < ncache) ->
   forall (D : list (string * inst)) (imem : inst -> nat -> bool) (T : trec) (ccast tself ttype : nat),
     inv cn wiring ncache D T ->
-  exists T' v, lookup cn wiring KInstance ccast T = ROk T' v /\ inv cn wiring ncache D T' /\
+  exists T' v, lookup cn wiring skipnull reread KInstance ccast T = ROk T' v /\ inv cn wiring ncache D T' /\
     cast_result imem v tself ttype =
       match dspec cn D ccast with
       | Some i => if imem i 0 then CCustom i else if Nat.eqb tself ttype then CSelf else CRaise ValueError
@@ -147,7 +147,7 @@ Print Assumptions C08_generated_wiring_sound.
 Theorem C08_builtin_types_return_declared_instance :
   forall tname insts h, In (tname, insts) builtin_types ->
     Forall (fun kc => snd kc < List.length builtin_objects) h ->
-  exists T', run_history cn_b wiring_b (cold_type cello_cache_num (builtin_decl insts)) h =
+  exists T', run_history cn_b wiring_b cache_write_skips_null cache_fetch_rereads (cold_type cello_cache_num (builtin_decl insts)) h =
              Some (T', map (fun kc => decl_lookup (builtin_decl_ids insts) (snd kc)) h).
 Proof. exact builtin_every_history. Qed.
 Print Assumptions C08_builtin_types_return_declared_instance.
@@ -156,7 +156,12 @@ Example C08_builtin_nonvacuous :
   exists insts, In ("Int"%string, insts) builtin_types /\
     map (fun c => decl_lookup (builtin_decl_ids insts) (index_of c builtin_objects)) ["Cmp"; "Len"; "Doc"]%string
     = [Some 2; None; Some 0].
-Proof. eexists. split; [vm_compute; tauto | vm_compute; reflexivity]. Qed.
+Proof.
+  exists (match find (fun t => String.eqb (fst t) "Int"%string) builtin_types with Some x => snd x | None => [] end).
+  split; [|vm_compute; reflexivity].
+  destruct (find (fun t => String.eqb (fst t) "Int"%string) builtin_types) as [[n i]|] eqn:E; [|vm_compute in E; discriminate].
+  apply find_some in E. destruct E as [Hin Hn]. cbn [fst] in Hn. apply String.eqb_eq in Hn. subst n. exact Hin.
+Qed.
 
 (* the reading by class identity needs distinct classes to have distinct names: two class objects that carry one name
    are indistinguishable to Type_Scan (declaration is by name: Instance(I, ...) stores #I) *)
@@ -174,11 +179,32 @@ Print Assumptions C08_distinct_names_give_identity_reading.
 (* the hypotheses on the wiring are necessary (what the cache-slot mutants break) *)
 Theorem C08_shared_slot_refuted : exists cn wiring D h,
   ~ NoDup (map fst wiring) /\
-  exists T' r, run_history cn wiring (cold_type 2 D) h = Some (T', r) /\ r <> map (fun kc => dspec cn D (snd kc)) h.
+  exists T' r, run_history cn wiring false false (cold_type 2 D) h = Some (T', r) /\ r <> map (fun kc => dspec cn D (snd kc)) h.
 Proof. exact shared_slot_breaks_lookup. Qed.
 Print Assumptions C08_shared_slot_refuted.
 
 Theorem C08_slot_outside_cache_refuted : exists cn wiring D c,
-  lookup cn wiring KInstance c (cold_type 1 D) = RCrash.
+  lookup cn wiring false false KInstance c (cold_type 1 D) = RCrash.
 Proof. exact slot_outside_cache_corrupts. Qed.
 Print Assumptions C08_slot_outside_cache_refuted.
+
+(* (6) run-time types: the allocator zeroes the block or Type_New clears all CELLO_CACHE_NUM cache words (read from the
+   source), so a new type starts cold in whatever block it is built, and every history of lookups on it answers from
+   its own declaration only -- not from what a deleted type left in a recycled block *)
+Theorem C08_fresh_runtime_type_answers_from_own_declaration :
+  forall (cn : cls -> string) (wiring : list (nat * cls)) (skipnull reread : bool),
+    NoDup (map fst wiring) -> (forall i c, In (i, c) wiring -> i < cello_cache_num) ->
+  forall (garbage : list (option inst)) (D : list (string * inst)) (h : list (kind * cls)),
+    List.length garbage = cello_cache_num ->
+  exists T', run_history cn wiring skipnull reread
+               (fresh_type type_alloc_zeroed type_new_cleared_words cello_cache_num garbage D) h
+             = Some (T', map (fun kc => dspec cn D (snd kc)) h).
+Proof. exact fresh_type_every_history. Qed.
+Print Assumptions C08_fresh_runtime_type_answers_from_own_declaration.
+
+Theorem C08_partial_cache_clear_refuted : exists cn wiring garbage D h,
+  NoDup (map fst wiring) /\ (forall i c, In (i, c) wiring -> i < 2) /\ List.length garbage = 2 /\
+  exists T' r, run_history cn wiring false false (fresh_type false 1 2 garbage D) h = Some (T', r) /\
+               r <> map (fun kc => dspec cn D (snd kc)) h.
+Proof. exact partial_clear_breaks_fresh_type. Qed.
+Print Assumptions C08_partial_cache_clear_refuted.
